@@ -1,5 +1,6 @@
 """C06 -- measurement follows the Born rule and the projection postulate."""
 import numpy as np
+import pyclifford as pc
 from vlib import gen, dense as D, states as S
 from vlib import impl_np as NP
 from vlib.run import do
@@ -179,7 +180,24 @@ def c_coin_positions(ctx, args):
     return None
 
 
-CHECKS = {'layer': __import__('props.C14', fromlist=['c_layer']).c_layer, 'coin_positions': c_coin_positions, 'coin_joint': c_coin_joint, 'coin_fair': c_coin_fair, 'measure': c_measure, 'measure_forms': c_measure_forms}
+def c_many_outcomes(ctx, args):
+    """the log2-probability of n undetermined outcomes in one call is exactly -n, however large n is (2^-n itself underflows beyond n = 1074)"""
+    N, seed = args
+    NP.seed_numba(seed)
+    s = pc.zero_state(N)
+    gs = np.zeros((N, 2 * N), dtype=np.int_)
+    gs[np.arange(N), 2 * np.arange(N)] = 1
+    obs = pc.paulialg.PauliList(gs, np.zeros(N, dtype=np.int_))
+    out, lp = s.measure(obs)
+    if float(lp) != -float(N):
+        return {'kind': 'oracle', 'where': 'np:log2prob of %d undetermined outcomes in one call' % N, 'observed': repr(float(lp)), 'expected': -N, 'tags': ['many_outcomes']}
+    out2, lp2 = s.measure(obs)
+    if float(lp2) != 0.0 or [int(v) for v in out2] != [int(v) for v in out] or int(s.r) != 0:
+        return {'kind': 'oracle', 'where': 'np:repeating a measurement of %d observables' % N, 'observed': [float(lp2), int(s.r)], 'expected': [0.0, 0], 'tags': ['many_outcomes']}
+    return None
+
+
+CHECKS = {'many_outcomes': c_many_outcomes, 'layer': __import__('props.C14', fromlist=['c_layer']).c_layer, 'coin_positions': c_coin_positions, 'coin_joint': c_coin_joint, 'coin_fair': c_coin_fair, 'measure': c_measure, 'measure_forms': c_measure_forms}
 
 
 def all_tableaux_1q():
@@ -258,6 +276,7 @@ def run(ctx):
         o = rng.choice([[[1 if j == 2 * q + 1 else 0 for j in range(2 * n)], 0], [[1 if j == 2 * q else 0 for j in range(2 * n)], 0], gen.rpauli(rng, n, herm=True, nonzero=True)])
         do(ctx, 'coin_fair', [t, o, rng.randrange(10 ** 6)], nontrivial=('cf', it) if t[1] > 0 else None)
     if not getattr(ctx, 'is_worker', False):
+        do(ctx, 'many_outcomes', [1100, rng.randrange(10 ** 6)], nontrivial='mo')
         for N in (70, 130):
             do(ctx, 'coin_positions', [N, rng.randrange(10 ** 6)], nontrivial=('cp', N))
     # ... and jointly: several undetermined observables in one call (single-site Z's / X's on product-like states, random commuting lists on random states)
